@@ -398,14 +398,14 @@ namespace fixedmath
                          : static_cast<fixed_internal_unsigned>( value );
       }
 
-    ///\returns true when lh * rh is outside of lowest() .. max() range and can not be calculated with fixed_internal
+    ///\returns true when magnitude of lh * rh is above 2^63-1 and can not be calculated with fixed_internal
     template<typename integral_type>
     [[ gnu::const, gnu::always_inline ]]
     constexpr bool multiply_overflows( fixed_internal lh, integral_type rh ) noexcept
       {
       fixed_internal_unsigned const ulh { unsigned_magnitude( lh ) };
       fixed_internal_unsigned const urh { unsigned_magnitude( rh ) };
-      return urh != 0 && ulh > static_cast<fixed_internal_unsigned>( limits_::max().v ) / urh;
+      return urh != 0 && ulh > static_cast<fixed_internal_unsigned>( limits_::quiet_NaN().v ) / urh;
       }
     
     [[ gnu::const, gnu::always_inline ]]
